@@ -32,10 +32,11 @@ Theorem C13_statement : forall i o, spec_okb i o = true -> Spec i o.
 Proof. exact spec_okb_sound. Qed.
 Print Assumptions C13_statement.
 
-(* the correspondence compares observations through Corr.C13.alpha, i.e. as far as the statement fixes them:
-   each thread's own events in its order (not the global interleaving, not main's acquire/stop()/release inside
-   the abort handler), the live flags for a normal return only, and of the workers told to stop on an abort the
-   set of started-and-unjoined ones (nothing when a stop() of the caller's result itself raised) *)
+(* the correspondence compares observations through Corr.C13.alpha, i.e. as far as the statement fixes them whatever
+   synchronisation primitives the suite uses and whether or not it has a queue: per started worker its own calls
+   on the caller's result and (normal return) what main passed on from it; which sub-suites were started; raised;
+   deadlock; semaphore free; live flags for a normal return; the workers told to stop when make_tests raised.
+   Queue events, joins, main's stop() calls and the global interleaving are forgotten. *)
 Theorem C13_obs_eqb : forall a b, obs_eqb a b = true <-> alpha a = alpha b.
 Proof. exact obs_eqb_spec. Qed.
 Print Assumptions C13_obs_eqb.
